@@ -10,10 +10,10 @@ import (
 
 func TestVerifC04Fetch(t *testing.T) {
 	r := verifkit.Start(t, "C04", "fetch")
-	defer r.Finish("case = a log built through the real handler (3 partitions over 2 topics, 4-13 well-formed batches of 1-5 records with unique values; modes: flush-on-ack (one segment per produce, optional restart), buffered acks=1 with batch-count flush threshold (multi-batch segments + unflushed tail served from the write buffer), mid-flush (2-3 producers and a fetcher under the deterministic scheduler, reads while uploads are held; in 2/3 of these cases one segment/index upload may fail without effect while producers keep appending - the schedule prefers to fail a flush that an append overlapped -, the failed produce is answered with an error, the log requeues the drained batches and a later flush or a final forced flush stores them)) x index interval {1,3,100} x cache {off, 1MiB, 700B} x read-ahead {0,2}; every offset of every partition is then read with byte limits {1,60,61,62,100,150,400,5000,1MiB,0} through handler Fetch and PartitionLog.Read and judged against the reference log (progress oracle); distinct = configuration signature x case; non-trivial = case judged > 20 reads",
+	defer r.Finish("case = a log built through the real handler (3 partitions over 2 topics, 4-13 (buffered: up to 36) well-formed batches of 1-5 records with unique values; modes: flush-on-ack (one segment per produce, optional restart), buffered acks=1 with a flush threshold of 2-8 batches (multi-batch segments with several sparse-index entries + unflushed tail served from the write buffer), mid-flush (2-3 producers and a fetcher under the deterministic scheduler, reads while uploads are held, with acks waiting for the flush or - KAFSCALE_PRODUCE_SYNC_FLUSH=false - append-triggered flushes only; in 2/3 of these cases one segment/index upload may fail without effect while producers keep appending - the schedule prefers to fail a flush that an append overlapped -, the failed produce is answered with an error, the log requeues the drained batches and a later flush or a final forced flush stores them)) x index interval {1,3,100} x cache {off, 1MiB, 700B} x read-ahead {0,2}; every offset of every partition is then read with byte limits {1,60,61,62,100,150,400,5000,1MiB,0} through handler Fetch and PartitionLog.Read in ascending order, followed by 120 reads at PRNG-chosen (partition, offset, limit) in no particular order (consumers at different positions taking turns, seeks back and forth), all judged against the reference log (progress oracle); distinct = configuration signature x case; non-trivial = case judged > 20 reads",
 		"reference log = acknowledged batches in offset order with the acknowledged base patched in; in mid-flush cases with an upload fault it is completed from the final stored log: every batch a producer sent that is found stored (frames matched ignoring the 8-byte base offset) belongs to it at its stored offset, also when its produce was answered with an error",
 		"C03 only: in those cases a stored frame that matches no sent batch, a sent batch stored twice, or an acknowledged batch that is missing from the log or stored at another offset than acknowledged is reported as a violation (bytes that no producer appended / not the acknowledged bytes in order)",
-		"reads are sequential except in mid-flush mode")
+		"reads are issued one at a time except in mid-flush mode and in the stress leg")
 	n := r.N(260, 20000)
 	for ci := 0; ci < n; ci++ {
 		rng := r.Rand(ci)
@@ -25,8 +25,23 @@ func TestVerifC04Fetch(t *testing.T) {
 		}
 	}
 	r.Floor("reads_handler_fetch", 2000)
+	r.Floor("reads_handler_fetch_random_order", 2000)
+	r.Floor("reads_partitionlog_read_random_order", 2000)
 	r.Floor("reads_partitionlog_read", 2000)
 	r.Floor("cases_sparse_index", 20)
 	r.Floor("reads_partitionlog_read_in_gap", 50)
 	r.Floor("nonempty_fetch_replies_while_upload_pending", 20)
+}
+
+func TestVerifC04Stress(t *testing.T) {
+	r := verifkit.Start(t, "C04", "stress")
+	defer r.Finish("real goroutines, no scheduler: 8 producers x 5 batches append to ONE partition of a fresh handler at once (flush-on-ack with acks=-1, or KAFSCALE_PRODUCE_SYNC_FLUSH=false with acks=1 and a flush threshold of 2-4 batches) while two consumers follow the log from offset 0 with byte limits {1MiB,150,61,400}; then every offset is read with limits {61,150,1MiB}. All replies are judged against the reference built from all 40 acknowledgements (progress oracle: a non-error reply below the high watermark reaches the start of the batch holding the offset); x cache off/on x index interval {1,3,100}. non-trivial = a consumer obtained records while the producers were running",
+		"interleavings are whatever the Go scheduler produces on the machine's cores; a case in which some produce was not acknowledged has no complete reference and decides nothing")
+	n := r.N(40, 4000)
+	for ci := 0; ci < n; ci++ {
+		sig, nt := runFetchStressCase(t, r, "C04", r.Rand(ci), ci)
+		r.Case(verifkit.Hash(ci, sig), nt)
+	}
+	r.Floor("stress_cases_judged", 20)
+	r.Floor("reads_stress_while_producing", 60)
 }
